@@ -118,7 +118,7 @@ def check_state(typ, kv, xs, ws, ys, res, c, variant, ctx, merged=False):
     if typ == 'Covariance':
         range_check('mean_x', min(xs), max(xs), M, 'x observations')
         range_check('mean_y', min(ys), max(ys), Fraction(max(abs(y) for y in ys)), 'y observations')
-    if typ in ('WeightedMean', 'WeightedMeanWithError'):
+    if typ in ('WeightedMean', 'WeightedMeanWithError') and ws is not None:
         contrib = [x for x, w in zip(xs, ws) if w > 0]
         if contrib:
             name = 'mean' if typ == 'WeightedMean' else 'weighted_mean'
@@ -274,6 +274,78 @@ def shard(desc):
     return res
 
 
+def special_shard(desc):
+    """(a) lopsided merges of a far-away singleton with a tightly clustered chunk thousands to >65536 times larger, in both
+    operand orders; (b) sample sizes beyond 2^32 reached by repeated self-merging.  Same invariants."""
+    rng = random.Random(desc['seed'])
+    res = Result()
+    variant = desc['variant']
+    cases, plan = [], []
+    k = 0
+    for nbig, typ in desc['lopsided']:
+        centre = rng.choice([-1, 1]) * 10.0 ** rng.uniform(-3, 6)
+        big = [centre * (1 + 1e-9 * rng.random()) for _ in range(nbig)]
+        small = [centre + rng.choice([-1, 1]) * abs(centre) * rng.choice([0.5, 10.0])]
+        for small_first in (True, False):
+            xs = (small + big) if small_first else (big + small)
+            ws = ys = None
+            arity = 1
+            flat = xs
+            if typ in ('WeightedMean', 'WeightedMeanWithError'):
+                arity, ws = 2, [1.0] * len(xs)
+                flat = [v for x in xs for v in (x, 1.0)]
+            elif typ == 'Covariance':
+                arity, ys = 2, [2.0 * x for x in xs]
+                flat = [v for x in xs for v in (x, 2.0 * x)]
+            sizes = (1, nbig) if small_first else (nbig, 1)
+            for orient in (0, 1):
+                c = Case('%s-%d' % (desc['name'], k), typ, meta={'kind': 'lopsided', 'sizes': list(sizes), 'tree': '(LL%d)' % orient})
+                k += 1
+                tc = gen.TreeCompiler(c, gen.chunks_of(flat, sizes, arity), arity=arity)
+                tc.build((0, 1, orient))
+                cases.append(c)
+                plan.append((c, typ, [(tc.obs[-1][0], 0, len(xs))], xs, ws, ys, 'lopsided'))
+                res.count('lopsided_histories')
+    for typ, kk in desc['doubling']:
+        base = [float(rng.randint(-9, 9)) + 0.5 for _ in range(rng.randint(2, 4))]
+        if len(set(base)) < 2:
+            base[0] += 1.0
+        c = Case('%s-%d' % (desc['name'], k), typ, meta={'kind': 'doubling', 'k': kk, 'tree': 'doubling'})
+        k += 1
+        c.op('N', 0)
+        if typ == 'Covariance':
+            c.op('A', 0, [v for x in base for v in (x, -x)])
+        elif typ == 'WeightedMeanWithError':
+            c.op('A', 0, [v for x in base for v in (x, 2.0)])
+        else:
+            c.op('A', 0, base)
+        for _ in range(kk):
+            c.op('M', 0, 0)
+        mk = c.op('O', 0)
+        cases.append(c)
+        # weighted-count invariants (effective_len <= n) refer to the true sample size base x 2^k: not checked here
+        plan.append((c, typ if typ != 'WeightedMeanWithError' else 'WeightedMeanWithError', [(mk, 0, len(base))], base, None,
+                     [-x for x in base] if typ == 'Covariance' else None, 'doubling'))
+        res.count('doubling_histories')
+    logs = run_driver(desc['binary'], ''.join(c.text() for c in cases), timeout=3600)
+    for c, typ, marks, xs, ws, ys, kind in plan:
+        recs = logs.get(c.id)
+        if recs is None:
+            res.inconclusive.append('case %s missing' % c.id)
+            continue
+        for r in recs:
+            if r.kind in ('p', 'e', 'd'):
+                res.violation(PROP, '%s:%s' % (typ, 'panic' if r.kind == 'p' else 'harness'),
+                              '%s (%s): op %d (%s) -> %s %s' % (typ, kind, r.op, c.ops[r.op][:40], r.kind, r.rest), c, variant)
+        by_op = {r.op: r for r in recs if r.kind == 'o'}
+        for opi, lo, hi in marks:
+            if opi in by_op:
+                # for the doubling histories the multiset is base x 2^k: min / max / sign invariants are those of base
+                check_state(typ, by_op[opi].kv, xs[lo:hi], ws, ys, res, c, variant, '(%s history %s)' % (kind, c.meta), merged=True)
+        res.distinct.add(c.key())
+    return res
+
+
 def witness(binary, variant):
     """Deterministic witness of the recorded known finding (known_findings.txt): merging two weighted means of
     subnormal data forms weight_sum * mean products that underflow to zero."""
@@ -313,9 +385,16 @@ def run(tier, seed):
                       'seed': seed * 1000003 + s * 7919 + sum(map(ord, variant))} for s in range(nsh)]
             total.merge(common.run_shards(shard, descs))
             total.merge(witness(binary, variant))
+            lop = [(n, t) for n in ((4200, 9000, 70000) if tier == 'quick' else (4200, 9000, 70000, 140000))
+                   for t in ('Mean', 'Variance', 'Kurtosis', 'M6', 'WeightedMeanWithError', 'Covariance')]
+            dbl = [(t, kk) for t in ('Variance', 'Skewness', 'Kurtosis', 'M6', 'WeightedMeanWithError', 'Covariance') for kk in (31, 33, 40, 60)]
+            nsh2 = 8
+            descs = [{'name': 'x%s%d' % (variant[0], s), 'variant': variant, 'binary': binary, 'lopsided': lop[s::nsh2],
+                      'doubling': dbl[s::nsh2], 'seed': seed * 77 + s} for s in range(nsh2)]
+            total.merge(common.run_shards(special_shard, descs))
     except common.Inconclusive as e:
         total.inconclusive.append(str(e))
-    need = {'sign_checks': 20000, 'range_checks': 20000, 'merge_histories': 1000, 'effective_len_checks': 500,
+    need = {'lopsided_histories': 20, 'doubling_histories': 20, 'sign_checks': 20000, 'range_checks': 20000, 'merge_histories': 1000, 'effective_len_checks': 500,
             'weighted_range_checks': 500, 'histogram_variance_checks': 2000}
     for k in ('offset15', 'ulp', 'denormal', 'mixed', 'constperturb', 'big', 'standard'):
         need['kind_%s' % k] = 50
